@@ -201,6 +201,7 @@ def t_preempt(ending, answer, ping, nyields=14):
     def closer():
         run.k.block(lambda: run.k.yields >= idx + 1, None)
         state["closed_at"] = len(run.trace)
+        state["closed_time"] = run.k.now
         run.app.close()
 
     run.k.spawn(closer, "closer")
@@ -222,7 +223,8 @@ def t_preempt(ending, answer, ping, nyields=14):
     sx.require(not any(run.alive), "the ping thread has ended when run_forever returns", what=what)
     # the run was ended by the application's own close(): unless the connection had already been lost before, no error
     natural_end = any(t[0] == "on_error" for t in run.trace[: state["closed_at"]])
-    if not natural_end and ending != "eof" and not (ending == "none" and state["closed_at"] >= 0 and run.k.now - run.k.t0 >= 47):
+    fallback = ending == "none" and bool(state["closed_time"] >= run.k.t0 + 45)  # the script's own end of stream (t0+45) came first
+    if not natural_end and ending != "eof" and not fallback:
         sx.require(not run.ret, "a run ended by the application's own close() returns False", what=what, got=str(run.ret),
                    ending=ending, answer=answer)
     cover("preempt")
